@@ -277,6 +277,11 @@ func (r *Run) model() []InputVal {
 }
 
 func (r *Run) report(kind string, site Site, msg string) {
+	r.viol = append(r.viol, r.snapshot(kind, site, msg))
+}
+
+// snapshot records the current model (inputs, stub results, clock, schedule, endpoints) after a sat Check.
+func (r *Run) snapshot(kind string, site Site, msg string) Violation {
 	v := Violation{Kind: kind, Site: site.String(), Key: site.Key(kind), Msg: msg, Inputs: r.model(), Path: append([]Decision{}, r.taken...)}
 	v.Stubs = r.evalStubLog()
 	for _, c := range r.clockLog {
@@ -287,7 +292,7 @@ func (r *Run) report(kind string, site Site, msg string) {
 	for _, c := range r.randInts {
 		v.RandInts = append(v.RandInts, r.sol.Value(c).String())
 	}
-	r.viol = append(r.viol, v)
+	return v
 }
 
 // ---- decisions ---------------------------------------------------------------
@@ -681,6 +686,11 @@ func (r *Run) callFn(caller *Frame, fn *ssa.Function, args []Value, site Site) V
 	if in, ok := r.lookupIntrinsic(fn.String()); ok {
 		return in(r, caller, nil, args)
 	}
+	return r.callReal(caller, fn, args, site)
+}
+
+// callReal executes the function's own SSA body (no intrinsic, no summary).
+func (r *Run) callReal(caller *Frame, fn *ssa.Function, args []Value, site Site) Value {
 	if fn.Blocks == nil {
 		endPath("engine", "no body: %s (called at %s)", fn, site)
 	}
